@@ -8,7 +8,7 @@
 //! a time, by an undefined name (analysis errors) and, one at a time, wrapped into a binary expression ending in a
 //! number / bool literal (type-mismatch diagnostics) + metadata texts longer than 64 bytes whose 64th byte falls on
 //! every offset inside a multi-byte character (size diagnostics) + optional outputs carrying a datum (10 kinds of datum
-//! expression x 4 layouts x named / anonymous) + duplicate definitions and names of the wrong kind.
+//! expression x 4 layouts x named / anonymous) + duplicate definitions and names of the wrong kind + calls of undefined functions + every hand-written program again with CR LF line ends.
 use std::collections::BTreeSet;
 
 fn witness(ob: &str, f: &str, input: String, observed: String, required: &str) {
@@ -160,6 +160,26 @@ fn main() {
     for (i, src) in others.iter().enumerate() {
         if check_parse_error(src, &format!("other[{i}]")) { parse_cases += 1; }
         analysis_cases += check_analysis(src, &format!("other[{i}]")) as u64;
+    }
+    // calls of functions that do not exist (with and without arguments, nested, with blanks before the parenthesis)
+    let calls = [
+        "party A;\ntx t(q: Int) {\n  output { to: A, amount: zz(q), }\n}\n",
+        "party A;\ntx t(q: Int) {\n  output { to: A, amount: Ada(zz(q, 1)), }\n}\n",
+        "party A;\n// caf\u{e9}\ntx t(q: Int) {\n  output { to: A, amount: Ada(1) + zz_fn (q), }\n}\n",
+        "party A;\ntx t(q: Int) {\n  output { to: A, amount: Ada(1), datum: zz(), }\n}\n",
+        "party A;\ntx t(q: Int) {\n  output { to: A, amount: Ada(1), }\n  metadata { 1: zz(q), }\n}\n",
+    ];
+    for (i, src) in calls.iter().enumerate() {
+        if check_parse_error(src, &format!("call[{i}]")) { parse_cases += 1; }
+        analysis_cases += check_analysis(src, &format!("call[{i}]")) as u64;
+    }
+    // the same programs with Windows line ends (CR LF): the locations are offsets into the text the CALLER holds
+    for (family, list) in [("hand", &hand[..]), ("spaced", &spaced[..]), ("mismatch", &mism[..]), ("other", &others[..]), ("call", &calls[..])] {
+        for (i, src) in list.iter().enumerate() {
+            let crlf = src.replace('\n', "\r\n");
+            if check_parse_error(&crlf, &format!("{family}[{i}] with CR LF line ends")) { parse_cases += 1; }
+            analysis_cases += check_analysis(&crlf, &format!("{family}[{i}] with CR LF line ends")) as u64;
+        }
     }
     for (i, src) in mism.iter().enumerate() {
         if check_parse_error(src, &format!("mismatch[{i}]")) { parse_cases += 1; }
